@@ -113,6 +113,18 @@ def ep_sub(name, request, sub_res, subtok, tok=None):
                     headers={'X-Sim-Route': 'sub'})
 
 
+def ep_item_get(name, request, tok=None):
+    return Response('iget|%s|%s|%s' % (name, tok, rid(request)), headers={'X-Sim-Route': 'item-get'})
+
+
+def ep_item_post(name, request, tok=None):
+    return Response('ipost|%s|%s|%s' % (name, tok, rid(request)), headers={'X-Sim-Route': 'item-post'})
+
+
+def ep_item_put(name, request, tok=None):
+    return Response('iput|%s|%s|%s' % (name, tok, rid(request)), headers={'X-Sim-Route': 'item-put'})
+
+
 def ep_nonresp(request, tok=None):
     return 'not-a-response-%s' % rid(request)
 
@@ -145,6 +157,10 @@ def build(cfg):
         ('/fall/<x>', ep_fall_a),
         ('/fall/<y>', ep_fall_b),
         POST('/post', ep_post),
+        # three method-restricted routes on ONE path: a request with another method is rejected by each in turn
+        GET('/item/<name>', ep_item_get),
+        POST('/item/<name>', ep_item_post),
+        Route('/item/<name>', ep_item_put, methods=['PUT']),
         ('/boom', ep_boom),
         ('/dir/', ep_dir),
         ('/br/<x>/', ep_br),
